@@ -32,8 +32,22 @@ def pipe_jobs(ctx, label):
     }
 
 
+def e2e_job(ctx):
+    """Clean-end scenarios of Pipe.tla through the real endpoints (HTTP/1.1 + HTTP/2 stream halves,
+    TcpForwarder socket halves, loopback destination)."""
+    ctx.build("c02e")
+    s = ctx.tlc("MCPipeE2E", "MCPipeE2E.cfg", workers=4, timeout=900, coverage=False)
+    ctx.spec_must_hold(s)
+    r = ctx.harness("c02e", ["--vectors", s["out"]], env={"VERIF_ROOT": ROOT}, timeout=1800)
+    return r
+
+
 def run(ctx):
     cov = pipe_jobs(ctx, "C02")
+    e = e2e_job(ctx)
+    cov["end_to_end_scenarios"] = e["evaluations"]
+    cov["traces_validated_against_impl"] += e["evaluations"]
+    cov["evaluations"] += e["evaluations"]
     cov["rule"] = ("each evaluation is one execution of the real DuplexPipe::exchange on scripted endpoints (position-coded bytes, "
                    "partial-write windows, injected read/write/consume/eof/flush/wait errors, virtual-time ticks) driven by a schedule "
                    "that TLC simulated from Pipe.tla or by a seeded random schedule; every call the pipe makes is one trace line and the "
@@ -44,5 +58,6 @@ def run(ctx):
         "Source/Sink contract (read cancel-safe, read after EOF yields EOF, write returns a suffix, wait_writable only returns with capacity) is assumed of endpoints here; the real endpoints are checked against it separately",
         "bounded model: scripts of <= 3 chunks, windows <= 2, T = 2..3 ticks, one injected fault",
         "HTTP/3 endpoints are not driven",
+        "end-to-end part: over HTTP/1.1 only scenarios in which the side finishing second has nothing left to send are run for the client-first order (TLS carries no client half-close)",
         "trusted: TLC, the scripted endpoints of the harness, the verif::pipe door",
     ])
